@@ -74,6 +74,7 @@ func iterStream(cfg *Config) *hx.Stats {
 		iterNestedOracle(cfg, st, w, rng, nProg+p)
 		st.Programs++
 	}
+	iterCheckRequired(cfg, st, iterRequired)
 	st.TraceLines = w.Lines
 	st.Distinct = iterDistinct
 	atree.VerifSetThreshold(1024)
@@ -561,6 +562,8 @@ func iterArrayProgram(cfg *Config, st *hx.Stats, w *hx.W, rng *rand.Rand, p int)
 			e.itLoadedRound(k)
 		}
 		e.itFlavours()
+		e.itStop()
+		e.itObj()
 		e.itMutSet(sizeProf)
 		e.itFull()
 		e.step++
@@ -1090,6 +1093,8 @@ func iterMapProgram(cfg *Config, st *hx.Stats, w *hx.W, rng *rand.Rand, p int) {
 			e.itLoadedRound(k, mkBuilder)
 		}
 		lastFull = e.itFlavours(mkBuilder)
+		e.itStop(mkBuilder)
+		e.itObj(mkBuilder)
 		e.itMutSet(valProf)
 		e.itFull()
 		e.step++
